@@ -110,6 +110,24 @@ def crc_model_lemmas(eng):
     r, _ = eng.solve([stubs.crc_step_bits(c, b) != stubs.crc_step_shift(c, b)])
     if r != "unsat":
         raise E.HarnessError("CRC linear model differs from shift/xor model")
+    # the affine shortcut for runs of concrete bytes equals the byte-by-byte fold for every start state
+    rnd0 = random.Random(H.seed() + 1)
+    for k in (1, 2, 3):
+        data = bytes(rnd0.randrange(256) for _ in range(k))
+        stepwise = c
+        for byte in data:
+            stepwise = stubs.crc_step_bits(stepwise, z3.BitVecVal(byte, 8))
+        r2, _ = eng.solve([stubs.crc_run_concrete(c, data) != stepwise])
+        if r2 != "unsat":
+            raise E.HarnessError("CRC affine shortcut differs from the stepwise fold")
+    for k in (1, 4, 10, 36, 77, 120):
+        data = bytes(rnd0.randrange(256) for _ in range(k))
+        lin = stubs.crc_run_concrete(c, data)
+        for _ in range(6):
+            s0 = rnd0.randrange(65536)
+            v = z3.simplify(z3.substitute(lin, (c, z3.BitVecVal(s0, 16)))).as_long()
+            if v != binascii.crc_hqx(data, s0):
+                raise E.HarnessError("CRC affine shortcut disagrees with binascii.crc_hqx")
     rnd = random.Random(H.seed())
     from spec.ops_concrete import crc16
     for k in range(80):
